@@ -348,7 +348,18 @@ impl<F: Write + Seek> MiniAllocator<F> {
         self.free_mini_sectors.retain(|&idx| (idx as usize) < minifat_len);
 
         if mini_stream_len != self.directory.root_dir_entry().stream_len {
+            // Give the sectors that the shorter mini stream no longer needs
+            // back to the allocator, so that the length of its chain keeps
+            // matching the stream length recorded in the root entry.
+            let mut start_sector = self.directory.root_dir_entry().start_sector;
+            let mut chain =
+                self.directory.open_chain(start_sector, SectorInit::Zero)?;
+            chain.set_len(mini_stream_len)?;
+            if mini_stream_len == 0 {
+                start_sector = consts::END_OF_CHAIN;
+            }
             self.directory.with_root_dir_entry_mut(|dir_entry| {
+                dir_entry.start_sector = start_sector;
                 dir_entry.stream_len = mini_stream_len;
             })?;
         }
